@@ -43,6 +43,15 @@ def fresh(prefix, sort):
     return c
 
 
+_bv = [0]
+
+
+def bound(name, sort):
+    """A bound-variable constant with a unique name (nested binders must not capture each other's variables)."""
+    _bv[0] += 1
+    return z3.Const('%s!b%d' % (name, _bv[0]), sort)
+
+
 def fresh_fn(prefix, *sig):
     _counter[0] += 1
     return z3.Function('%s!%d' % (prefix, _counter[0]), *sig)
